@@ -1,25 +1,6 @@
--- Root of the library: the executable model, the lemma libraries and one theorem module per property.
-import EnrVerif.Model.Bytes
-import EnrVerif.Model.Rlp
-import EnrVerif.Model.Map
-import EnrVerif.Model.Enr
-import EnrVerif.Model.Mutators
-import EnrVerif.Model.Spec
-import EnrVerif.Model.Text
-import EnrVerif.Model.Stream
-import EnrVerif.Model.Schemes
-import EnrVerif.Model.Combined
-import EnrVerif.Model.NodeId
+-- Root of the library: the executable model, the driver, the lemma libraries (through the
+-- property modules that import them) and one theorem module per property.
 import EnrVerif.Model.Driver
-import EnrVerif.Proofs.BeLemmas
-import EnrVerif.Proofs.RlpLemmas
-import EnrVerif.Proofs.MapLemmas
-import EnrVerif.Proofs.Base64Lemmas
-import EnrVerif.Proofs.HexLemmas
-import EnrVerif.Proofs.DecodeLemmas
-import EnrVerif.Proofs.CodecTheorems
-import EnrVerif.Props.C02
-import EnrVerif.Props.C04
-import EnrVerif.Props.C12
-import EnrVerif.Props.C13
-import EnrVerif.Props.C16
+import EnrVerif.Model.Combined
+import EnrVerif.Model.Stream
+import EnrVerif.Props.All
